@@ -6,8 +6,10 @@
        (`.._init_first_start`, `.._init_next_start`, `.._init_kernel`, `.._init_calibration`) are generated;
      * the same loop inside estimate_experiment_repetitions, followed by the generated arithmetic tail;
      * the vocabulary of the theorems (no proofs in this file).
-   Quirks kept: __init__ ignores `qutrit_calibration_points` (the calibration kernel is always built) while
-   estimate_experiment_repetitions honours it; an empty rounds list raises IndexError in both. *)
+   Kept as in the code: __init__ always builds the calibration kernel object and stores `qutrit_calibration_points`; whether the
+   kernel is part of the cycle is decided by the generated `indexing_kernels` (it reads the flag since the fix of finding F15;
+   Gen.Kernels.experiment_kernel_honours_calibration_flag says which shape was translated); an empty rounds list raises IndexError
+   in __init__ and in estimate_experiment_repetitions. *)
 From Coq Require Import ZArith List Bool.
 Import ListNotations.
 From QCE Require Import Base.Prelude.
@@ -42,12 +44,12 @@ Fixpoint init_kernels (prev : option RepetitionIndexKernel) (h : bool) (data anc
       kernel :: init_kernels (Some kernel) h data anc rest
   end.
 
-(* c = qutrit_calibration_points is accepted and ignored, as in the code *)
+(* c = qutrit_calibration_points is stored (self._qutrit_calibration_points); the calibration kernel object is always built *)
 Definition experiment_kernel (rounds : list Z) (h c : bool) (data anc : list Z) (reps : Z) : outcome RepetitionExperimentKernel :=
   let ks := init_kernels None h data anc rounds in
   match last_opt ks with
   | None => Raised IndexError                         (* self._repetition_kernels[-1] on an empty list *)
-  | Some l => Value (MkRepetitionExperimentKernel ks (RepetitionExperimentKernel_init_calibration h data anc l) reps)
+  | Some l => Value (MkRepetitionExperimentKernel ks (RepetitionExperimentKernel_init_calibration h data anc l) reps c)
   end.
 
 (* ---------------------------------------------------------------- estimate_experiment_repetitions *)
@@ -84,7 +86,7 @@ Definition estimate_experiment_repetitions (rounds : list Z) (h c : bool) (datas
       end
   end.
 
-(* the cycle length estimate_experiment_repetitions divides by (depends on c, unlike kernel_cycle_length of the experiment kernel) *)
+(* the cycle length estimate_experiment_repetitions divides by *)
 Definition estimate_cycle_length (rounds : list Z) (h c : bool) : outcome Z :=
   match estimate_indexing_kernels rounds h c with
   | Raised e => Raised e
@@ -105,10 +107,11 @@ Definition calibration_indices (k : QutritCalibrationIndexKernel) (q : Z) : list
   ++ QutritCalibrationIndexKernel_get_heralded_state_1_measurement_index k q ++ QutritCalibrationIndexKernel_get_state_1_measurement_index k q
   ++ QutritCalibrationIndexKernel_get_heralded_state_2_measurement_index k q ++ QutritCalibrationIndexKernel_get_state_2_measurement_index k q.
 
-(* every index of q in the first experiment repetition *)
+(* every index of q in the first experiment repetition (calibration points only when the experiment has them) *)
 Definition cycle_indices (e : RepetitionExperimentKernel) (q : Z) : list Z :=
   concat (map (fun k => kernel_indices k q) (RepetitionExperimentKernel__repetition_kernels e))
-  ++ calibration_indices (RepetitionExperimentKernel__calibration_kernel e) q.
+  ++ (if RepetitionExperimentKernel__qutrit_calibration_points e
+      then calibration_indices (RepetitionExperimentKernel__calibration_kernel e) q else []).
 
 (* every index of q over all experiment repetitions *)
 Definition all_indices (e : RepetitionExperimentKernel) (q : Z) : list Z :=
